@@ -41,4 +41,23 @@ PROPS = {
                 "random lists; distinct = distinct (op,result) lines",
         "partial": "JSON-RPC server robustness and the ~80 embedded getters are runtime/correspondence only",
     },
+    "C20": {
+        "module": "ZenonVerif.Props.C20",
+        "streams": [S("genesis", 150, 5000, timeout=7200)],
+        "rule": "genesis stream: per case one random CONSISTENT configuration derived from the mock genesis (2-9 users, 2-5 tokens, "
+                "1-5 pillars, delegations, legacy entries, 0-7 fusions with distinct ids, 0-4 swap entries, optional sporks, "
+                "optional swap/token/stake contract entries), 4 permutations of every unordered list -> NewGenesis hash in process "
+                "(every 5th config also in two fresh subprocesses), 6 single-entry perturbations drawn from 21 kinds -> real "
+                "CheckGenesis (whole and validator by validator) vs model verdict, accepted configurations are started on a fresh "
+                "chain and the ledger is compared with the statement's sums, every 3rd config a LevelDB created with A is restarted "
+                "with B and with permuted A; 20 header lists per config through the real NewMomentumContent; distinct = distinct "
+                "(op,result) lines",
+        "partial": "invariance of the full genesis momentum (hash, patch of all embedded storage) under list permutation and across "
+                   "fresh processes is decided by the stream on the real code, not by a theorem (the theorems cover the two "
+                   "order-sensitive mechanisms: sorted momentum content, commuting writes to distinct keys); the contract-holding "
+                   "and supply clauses of CheckGenesis hold only under extra premises (contract has a GenesisBlocks entry; one entry "
+                   "per address) and TotalSupply <= MaxSupply is unchecked: _partial theorems + negative witnesses, known findings "
+                   "F13a/F13b/F13c",
+        "assumptions": ["SHA3 / ABI packing / LevelDB are not modelled: genesis hash equality is observed on the real code"],
+    },
 }
